@@ -292,9 +292,32 @@ fn escape_soup() -> BoxedStrategy<Vec<u8>> {
         .boxed()
 }
 
+/// Timestamps assembled from boundary parts: days and hours on which named zones skip or repeat local time, the
+/// ends of the year range, leap seconds, offsets in and out of range, known / unknown / absent zone names.
+fn timestamp_soup() -> BoxedStrategy<Vec<u8>> {
+    let date = prop::sample::select(vec!["2021-03-14", "2021-11-07", "2021-03-28", "2021-10-31", "2021-04-04", "2021-10-03", "0000-01-01", "9999-12-31", "2020-02-29", "2021-02-29", "2021-13-01", "1883-11-18", "1970-01-01"]);
+    let time = prop::sample::select(vec!["02:30:00", "01:30:00", "02:00:00", "03:00:00", "01:59:59.999999999", "23:59:60", "24:00:00", "00:00:00", "12:00:00.5", "2:30:00", "02:30"]);
+    let offset = prop::sample::select(vec!["Z", "+00:00", "-00:00", "-05:00", "-04:00", "+01:00", "+02:00", "+10:30", "+11:00", "+24:00", "+99:99", "-24:00", "+14:00", "+15:00", "+5:00", "+0530", "-00:45", ""]);
+    let zone = prop::sample::select(vec![" New_York", " London", " Berlin", " UTC", " Nowhere", "", " Sydney", " Lord_Howe", " GMT+5", " EST", " Monrovia", " Kiritimati", " new_york", "  Paris"]);
+    (date, time, offset, zone, 0u8..5)
+        .prop_map(|(d, t, o, z, wrap)| {
+            let ts = format!("{d}T{t}{o}{z}");
+            match wrap {
+                0 => ts,
+                1 => format!("[{ts}]"),
+                2 => format!("{{a:{ts} b}}"),
+                3 => format!("ver:\"3.0\"\nts,v\n{ts},1\n{ts},2\n"),
+                _ => format!("[{ts}, {ts}, \"x\"]"),
+            }
+            .into_bytes()
+        })
+        .boxed()
+}
+
 fn doc_strategy(depth: u32) -> BoxedStrategy<Doc> {
     let muts = || mutate::mutations(3);
     prop_oneof![
+        2 => (timestamp_soup(), plan(true)).prop_map(|(bytes, plan)| Doc { bytes, plan, origin: "zinc-timestamp-soup".into() }),
         2 => (escape_soup(), plan(false)).prop_map(|(bytes, plan)| Doc { bytes, plan, origin: "zinc-escape-soup".into() }),
         3 => (arbitrary_bytes(), plan(true)).prop_map(|(bytes, plan)| Doc { bytes, plan, origin: "arbitrary-bytes".into() }),
         2 => (zinc_doc(depth), plan(true)).prop_map(|(bytes, plan)| Doc { bytes, plan, origin: "zinc-valid".into() }),
@@ -598,7 +621,7 @@ fn run_ladder(ctx: &mut Ctx) {
 }
 
 pub fn run(ctx: &mut Ctx) {
-    ctx.rule("inputs: arbitrary bytes (uniform and biased to the Zinc/JSON alphabets and token dictionaries), grammar-generated valid Zinc/Hayson documents, every prefix of them (<= 320 B, exhaustively), 1-3 mutations (bit flip/insert/delete/duplicate/token splice/truncate/line-ending rewrite/extra or missing cell/deleted or duplicated line/unbalanced bracket), damaged and truncated grids, windows of the repository's corpus files truncated and mutated, and a nesting ladder 1..131072 for 7 openers closed and unclosed in child processes on the main and a 2 MiB thread stack; readers: from_str, Parser::parse_value and parse_grid_iterator (to the first Err/None) over readers with generated chunk sizes, Interrupted returns, I/O faults (once, for ever, or a timeout on every n-th call after which the caller asks again: up to 24 more parse_value calls / 48 more rows pulled), serde_json from_slice/from_str; oracle: returns Ok or Err - no panic, no fuel exhaustion (64*(len+16) scanner/lexer reads), no abort, no confirmed hang; non-trivial: input not empty and not merely a bare scalar; distinct by input hash");
+    ctx.rule("inputs: arbitrary bytes (uniform and biased to the Zinc/JSON alphabets and token dictionaries), grammar-generated valid Zinc/Hayson documents, every prefix of them (<= 320 B, exhaustively), 1-3 mutations (bit flip/insert/delete/duplicate/token splice/truncate/line-ending rewrite/extra or missing cell/deleted or duplicated line/unbalanced bracket), damaged and truncated grids, timestamps assembled from boundary parts (skipped / repeated local hours, range ends, leap seconds, offsets in and out of range, known / unknown zone names), windows of the repository's corpus files truncated and mutated, and a nesting ladder 1..131072 for 7 openers closed and unclosed in child processes on the main and a 2 MiB thread stack; readers: from_str, Parser::parse_value and parse_grid_iterator (to the first Err/None) over readers with generated chunk sizes, Interrupted returns, I/O faults of seven error kinds (once, for ever, or a timeout on every n-th call after which the caller asks again: up to 24 more parse_value calls / 48 more rows pulled), serde_json from_slice/from_str; oracle: returns Ok or Err - no panic, no fuel exhaustion (64*(len+16) scanner/lexer reads), no abort, no confirmed hang; non-trivial: input not empty and not merely a bare scalar; distinct by input hash");
     ctx.assume("fuel ticks at every Scanner::read / Lexer::read (hook) bound every parsing loop; what the row iterator does after its first error is not asserted");
     let depth = ctx.tier.pick(2, 3) as u32;
     run_ladder(ctx);
@@ -651,6 +674,7 @@ pub fn split_fuzz_input(data: &[u8]) -> (ReaderPlan, &[u8]) {
                 fail_forever: false,
                 // bit 3: a reader that times out on every third call (the caller asks again)
                 fail_every: if b & 8 != 0 { 3 } else { 0 },
+                fault_kind: 0,
             },
             rest,
         ),
